@@ -426,6 +426,7 @@ pub fn run(ctx: &Ctx) -> Report {
                     structured_case(st, rng, class, ar, ac);
                 } else if sel < 9 {
                     general_float_case(st, rng, n);
+                    if rng.chance(0.5) { tiny_block_case(st, rng); }
                 } else {
                     large_case(st, rng);
                 }
@@ -466,6 +467,37 @@ pub fn run(ctx: &Ctx) -> Report {
 }
 
 /// general floats with graded magnitudes; certificate from harness complete-pivoting elimination
+/// "Whatever the magnitudes": a perfectly nonsingular, well-conditioned system in which one unknown is decoupled and
+/// carries a tiny (down to subnormal, exactly representable) coefficient t = q*2^-e at position (p,p), every other entry of
+/// row p and column p being zero, with b_p = t*k. The pivot of elimination step p is necessarily t; the rest is a
+/// strictly diagonally dominant block. Judged by the ordinary oracle (finite, normwise backward error, solver agreement).
+fn tiny_block_case(st: &mut Stats, rng: &mut Rng) {
+    let n = rng.usize(2, 8);
+    let p = rng.usize(0, n - 1);
+    // complex elements: only down to 2^-330 (C13 states complex division for components of magnitude 1e-100..1e100; the
+    // library's quotient forms |z|^2, so a complex pivot below 2^-511 is outside the documented domain of Complex itself)
+    let real = rng.bool();
+    let e = if !real { rng.int(100, 330) } else if rng.bool() { rng.int(1023, 1071) } else { rng.int(600, 1022) } as i32;
+    let t = rng.nzint(7) as f64 * 2f64.powi(-(e / 2)) * 2f64.powi(-(e - e / 2));
+    let k = rng.nzint(9) as f64;
+    if real {
+        let mut a: Vec<Vec<f64>> = (0..n).map(|_| (0..n).map(|_| rng.sym()).collect()).collect();
+        for i in 0..n { let s: f64 = (0..n).filter(|&j| j != i && j != p).map(|j| a[i][j].abs()).sum(); a[i][i] = (s + rng.range(0.5, 1.5)) * if rng.bool() { 1.0 } else { -1.0 }; }
+        let mut b: Vec<f64> = (0..n).map(|_| rng.sym()).collect();
+        for j in 0..n { a[p][j] = 0.0; a[j][p] = 0.0; }
+        a[p][p] = t; b[p] = t * k;
+        judge_f64(st, "decoupled-tiny-pivot", &a, &b, &FloatCert { kappa: None });
+    } else {
+        let mut a: Vec<Vec<Cmplx>> = (0..n).map(|_| (0..n).map(|_| Cmplx::new(rng.sym(), rng.sym())).collect()).collect();
+        for i in 0..n { let s: f64 = (0..n).filter(|&j| j != i && j != p).map(|j| fl::cabs(a[i][j])).sum(); a[i][i] = Cmplx::polar(s + rng.range(0.5, 1.5), rng.range(-3.1, 3.1)); }
+        let mut b: Vec<Cmplx> = (0..n).map(|_| Cmplx::new(rng.sym(), rng.sym())).collect();
+        for j in 0..n { a[p][j] = Cmplx::new(0.0, 0.0); a[j][p] = Cmplx::new(0.0, 0.0); }
+        let tc = if rng.bool() { Cmplx::new(t, 0.0) } else { Cmplx::new(0.0, t) };
+        a[p][p] = tc; b[p] = if tc.real != 0.0 { Cmplx::new(t * k, 0.0) } else { Cmplx::new(0.0, t * k) };
+        judge_cmplx(st, "decoupled-tiny-pivot", &a, &b, &FloatCert { kappa: None });
+    }
+}
+
 fn general_float_case(st: &mut Stats, rng: &mut Rng, n: usize) {
     let graded = rng.bool();
     // "graded": exact power-of-two *column* scaling of a certified matrix plus a common row scale
